@@ -85,8 +85,17 @@ def rand_attempt(rng, types=None) -> EventAttempt:
     )
 
 
+class RaisingPolicy:
+    """a user-supplied policy whose code raises (the engine must not be derailed by it)"""
+
+    def next(self, elapsed_time, attempts, error, *, seed=None):
+        raise RuntimeError("user retry policy blew up")
+
+
 def rand_policy(rng):
     r = rng.random()
+    if r < 0.08:
+        return RaisingPolicy()
     if r < 0.4:
         return None
     if r < 0.7:
